@@ -424,6 +424,44 @@ fn model_tokens_i(n: &RefInt) -> Vec<Tok> {
 
 pub use crate::obs::build_u;
 
+/// History oracle of C17 (scenario `c17h`): whatever sequence of operations produced the object, its serialized form
+/// is the model's token sequence for the integer it denotes (sign token, minimal little-endian u32 digits, exact
+/// length) and a fresh deserialization of those tokens equals it. `None` = fine.
+pub fn history_oracle_u(x: &num_bigint::BigUint) -> Option<(&'static str, String)> {
+    let want = model_tokens_u(&RefNat::from_u32s(&crate::obs::denote_u(x).0).shr(0));
+    let (r, toks, _) = ser_tokens(x, None);
+    if let Err(e) = r {
+        return Some(("ser-error", format!("serialize failed: {e}")));
+    }
+    if toks != want {
+        return Some(("ser-model", format!("serialized as {:?}, the value's portable form is {:?}", &toks[..toks.len().min(12)], &want[..want.len().min(12)])));
+    }
+    let (back, _) = de_tokens::<num_bigint::BigUint>(toks, HintMode::Exact, None);
+    match back {
+        Ok(y) if &y == x && crate::obs::noncanonical_u(&y).is_none() => None,
+        Ok(y) => Some(("roundtrip", format!("deserialize(serialize(x)) = {:x?} for x = {:x?}", y.to_u32_digits(), x.to_u32_digits()))),
+        Err(e) => Some(("reject-valid", format!("own output rejected: {e}"))),
+    }
+}
+
+pub fn history_oracle_i(x: &num_bigint::BigInt) -> Option<(&'static str, String)> {
+    let d = crate::obs::denote_i(x);
+    let want = model_tokens_i(&RefInt::new(d.neg, d.mag.shr(0)));
+    let (r, toks, _) = ser_tokens(x, None);
+    if let Err(e) = r {
+        return Some(("ser-error", format!("serialize failed: {e}")));
+    }
+    if toks != want {
+        return Some(("ser-model", format!("serialized as {:?}, the value's portable form is {:?}", &toks[..toks.len().min(12)], &want[..want.len().min(12)])));
+    }
+    let (back, _) = de_tokens::<num_bigint::BigInt>(toks, HintMode::Exact, None);
+    match back {
+        Ok(y) if &y == x && crate::obs::noncanonical_i(&y).is_none() => None,
+        Ok(y) => Some(("roundtrip", format!("deserialize(serialize(x)) = {:?} for x = {:?}", y.to_u32_digits(), x.to_u32_digits()))),
+        Err(e) => Some(("reject-valid", format!("own output rejected: {e}"))),
+    }
+}
+
 fn ser_tokens<T: Serialize>(v: &T, fail_at: Option<usize>) -> (Result<(), SimErr>, Vec<Tok>, bool) {
     ser_tokens_h(v, fail_at, false)
 }
